@@ -23,6 +23,7 @@ import (
 	"github.com/libp2p/go-libp2p/p2p/net/swarm"
 	"github.com/libp2p/go-libp2p/p2p/net/upgrader"
 	"github.com/libp2p/go-libp2p/p2p/protocol/identify"
+	"github.com/libp2p/go-libp2p/p2p/security/insecure"
 	"github.com/libp2p/go-libp2p/p2p/security/noise"
 	libp2ptls "github.com/libp2p/go-libp2p/p2p/security/tls"
 	ma "github.com/multiformats/go-multiaddr"
@@ -36,9 +37,13 @@ import (
 )
 
 func drawStack(rt *rapid.T, c *muxCase) {
-	c.Sec = rapid.SampledFrom([]string{"noise", "tls"}).Draw(rt, "sec")
+	// "insecure" = the plaintext transport a node configured without security runs in this place
+	c.Sec = rapid.SampledFrom([]string{"noise", "tls", "insecure", "noise", "tls"}).Draw(rt, "sec")
 	c.PSK = rapid.Bool().Draw(rt, "psk")
 	c.Early = rapid.Bool().Draw(rt, "early")
+	if c.Sec == "insecure" {
+		c.Early = false // its handshake cannot carry the muxer choice
+	}
 }
 
 // mkUpgrader builds the real upgrader for one identity with the drawn stack.
@@ -50,9 +55,13 @@ func mkUpgrader(id *keys.Identity, c *muxCase) (transport.Upgrader, error) {
 	}
 	var st sec.SecureTransport
 	var err error
-	if c.Sec == "tls" {
+	switch c.Sec {
+	case "tls":
 		st, err = libp2ptls.New(libp2ptls.ID, id.Priv, secMuxers)
-	} else {
+	case "insecure":
+		// no muxer negotiation inside this handshake: the muxer is always chosen by multistream
+		st = insecure.NewWithIdentity(insecure.ID, id.ID, id.Priv)
+	default:
 		st, err = noise.New(noise.ID, id.Priv, secMuxers)
 	}
 	if err != nil {
